@@ -98,6 +98,17 @@ class FullExecutor(Executor):
         elif isinstance(t, TDict):
             r = self.dict_method(st, recv, name, args, node)
             return self.wrap(st, r, stmt_level)
+        elif isinstance(t, TRef) and t.cls in __import__("pyvc.dsl", fromlist=["DICT_CLASSES"]).DICT_CLASSES:
+            if name == "get" and isinstance(args[0], K) and has_field(t.cls, args[0].v):
+                v = self.heap_get(st, recv, args[0].v)
+                dflt = args[1] if len(args) > 1 else K(None)
+                if isinstance(v.ty, TOpt):
+                    if isinstance(dflt, K) and dflt.v is None:
+                        return self.wrap(st, v, stmt_level)
+                    d = coerce(dflt, v.ty.inner)
+                    return self.wrap(st, V(v.ty.inner, z3.If(is_none(v), d.z, unwrap_opt(v).z)), stmt_level)
+                return self.wrap(st, v, stmt_level)
+            raise Unsupported(f"dict object method {name}")
         elif isinstance(t, (TRec, TRef)):
             clsobj = resolve_class(t.cls) if isinstance(t, TRec) else CLASS_OBJ.get(t.cls)
             if clsobj is None:
